@@ -58,7 +58,10 @@ MUTANTS = [
     ("aiojob-nofail-count", "scheduler/asyncio/job.py", "            self._BaseJob__failed_attempts += 1  # type: ignore\n        self._BaseJob__attempts += 1", "            pass\n        self._BaseJob__attempts += 1", ["C10"]),
     ("aiojob-noattempt-on-fail", "scheduler/asyncio/job.py", "            self._BaseJob__failed_attempts += 1  # type: ignore\n        self._BaseJob__attempts += 1", "            self._BaseJob__failed_attempts += 1  # type: ignore\n            return\n        self._BaseJob__attempts += 1", ["C10", "C06"]),
     ("aiojob-nolog", "scheduler/asyncio/job.py", "            logger.exception(\"Unhandled exception in `%r`!\", self)\n            self._BaseJob__failed", "            self._BaseJob__failed", ["C10"]),
-    ("aio-once-tags-nonset", "scheduler/asyncio/scheduler.py", "SENTINEL", "x", []),
+    ("aio-once-tags-asis", "scheduler/asyncio/scheduler.py", "            max_attempts=1,\n            tags=set(tags) if tags else set(),\n            alias=alias,\n        )", "            max_attempts=1,\n            tags=tags,\n            alias=alias,\n        )", ["C12"]),
+    ("aiojob-drop-kwargs", "scheduler/asyncio/job.py", "self._BaseJob__handle(*self._BaseJob__args, **self._BaseJob__kwargs)", "self._BaseJob__handle(*self._BaseJob__args)", ["C19"]),
+    ("aio-get-jobs-any-ignored", "scheduler/asyncio/scheduler.py", "        return select_jobs_by_tag(self.jobs, tags, any_tag)", "        return select_jobs_by_tag(self.jobs, tags, False)", ["C12"]),
+    ("aio-once-maxatt2", "scheduler/asyncio/scheduler.py", "            kwargs=kwargs,\n            max_attempts=1,\n            tags=set(tags) if tags else set(),\n            alias=alias,\n            delay=False,", "            kwargs=kwargs,\n            max_attempts=2,\n            tags=set(tags) if tags else set(),\n            alias=alias,\n            delay=False,", ["C06", "C03"]),
     ("aio-nocancel", "scheduler/asyncio/scheduler.py", "            _: bool = task.cancel()", "            _ = task", ["C18"]),
     ("aio-nounregister", "scheduler/asyncio/scheduler.py", "            self._jobs.pop(job, None)", "            pass", ["C18", "C17"]),
     ("util-cutoff-ge", "scheduler/base/scheduler_util.py", "    if len(string) > max_length:", "    if len(string) >= max_length:", ["C20"]),
